@@ -32,4 +32,14 @@ def fromjsonfile(source, nan_string=None, infinity_string=None, minus_infinity_s
 
 
 def uproot_issue_90(form, array, byteoffsets):
-    raise NotImplementedError("pyshim: uproot_issue_90 is not served")
+    from pyshim import typesforms
+    from pyshim.nodes import Index32
+
+    if not isinstance(form, typesforms.Form):
+        raise TypeError("uproot_issue_90: form must be an ak.forms.Form")
+    if not isinstance(array, C.NumpyArray):
+        raise TypeError("uproot_issue_90: array must be a NumpyArray")
+    if not isinstance(byteoffsets, Index32):
+        raise TypeError("uproot_issue_90: byteoffsets must be an Index32")
+    with core.request_scope():
+        return C.fromsx(core.request("uproot_issue_90 %s %s %s" % (hx(form._json()), array._sx(False), byteoffsets._sx())))
